@@ -23,6 +23,8 @@ func main() {
 	list := flag.String("list", "", "file with one behaviour file name per line")
 	replicas := flag.Int("replicas", 1, "C14: execute every behaviour this many times")
 	repOffset := flag.Int("rep-offset", 0, "C14: number the replicas from this offset + 1")
+	jsonl := flag.String("jsonl", "", "file with one behaviour (JSON array) per line")
+	lastOnly := flag.Bool("last-only", false, "mark every step but the last of a behaviour as judge=false")
 	addrs := flag.Int("addrs", 0, "print the bech32 addresses of model users u1..uN as JSON and exit")
 	flag.Parse()
 	if *addrs > 0 {
@@ -61,12 +63,48 @@ func main() {
 		fatal(err)
 	}
 	enc := json.NewEncoder(w)
+	emit := func(name string, bz []byte) error {
+		if !*lastOnly {
+			return fr.ReplayReplicas(base, name, bz, *replicas, *repOffset, func(s fr.Step) error { return enc.Encode(s) })
+		}
+		var buf []fr.Step
+		if err := fr.ReplayBehaviour(base, name, bz, func(s fr.Step) error { buf = append(buf, s); return nil }); err != nil {
+			return err
+		}
+		for i := range buf {
+			buf[i].Judge = i == len(buf)-1
+			if err := enc.Encode(buf[i]); err != nil {
+				return err
+			}
+		}
+		return nil
+	}
+	if *jsonl != "" {
+		f, err := os.Open(*jsonl)
+		if err != nil {
+			fatal(err)
+		}
+		sc := bufio.NewScanner(f)
+		sc.Buffer(make([]byte, 1<<20), 1<<26)
+		n := 0
+		for sc.Scan() {
+			n++
+			line := append([]byte{}, sc.Bytes()...)
+			if len(line) == 0 {
+				continue
+			}
+			if err := emit(fmt.Sprintf("%s#%d", filepath.Base(*jsonl), n), line); err != nil {
+				fatal(fmt.Errorf("%s line %d: %w", *jsonl, n, err))
+			}
+		}
+		f.Close()
+	}
 	for _, f := range files {
 		bz, err := os.ReadFile(f)
 		if err != nil {
 			fatal(err)
 		}
-		if err := fr.ReplayReplicas(base, filepath.Base(f), bz, *replicas, *repOffset, func(s fr.Step) error { return enc.Encode(s) }); err != nil {
+		if err := emit(filepath.Base(f), bz); err != nil {
 			fatal(fmt.Errorf("%s: %w", f, err))
 		}
 	}
